@@ -81,8 +81,10 @@ fn run_case(case: &Value) -> Value {
 			options: SpawnOptions::default(),
 		});
 		let (job, task) = start_job(command);
+		let mut job = Some(job);
 		// preamble (not part of the history): error handler + the hook that installs the simulated child
 		{
+			let job = job.as_ref().unwrap();
 			let sh2 = sh.clone();
 			job.set_error_handler(move |e| log(&sh2, &format!("err({})", e.get().map_or("?".into(), |e| e.kind().to_string().replace(' ', "_")))));
 			install_hook(&job, &sh, None).await;
@@ -99,6 +101,15 @@ fn run_case(case: &Value) -> Value {
 				tokio::time::sleep_until(target).await;
 			}
 			let grace = Duration::from_millis(op["grace"].as_u64().unwrap_or(0));
+			if op["op"] == "drop_handle" {
+				// the last Job handle goes away (tickets issued so far are still held by their waiters)
+				job = None;
+				for _ in 0..50 {
+					tokio::task::yield_now().await;
+				}
+				continue;
+			}
+			let Some(job) = job.as_ref() else { continue };
 			let ticket = match op["op"].as_str().unwrap() {
 				"start" => job.start(),
 				"stop" => job.stop(),
@@ -175,7 +186,7 @@ fn run_case(case: &Value) -> Value {
 		}
 		let finished = task.is_finished();
 		let panicked = if finished { task.await.is_err() } else { task.abort(); false };
-		let dead = job.is_dead();
+		let dead = job.as_ref().map_or(true, |j| j.is_dead());
 		for w in waiters {
 			w.abort();
 		}
